@@ -112,7 +112,10 @@ pub trait Deserialize: DeserializeInner {
         }
         // deserialize the data structure
         let mem = unsafe { (*ptr).1.as_ref().unwrap() };
+        // the backend must be released if deserialization fails
+        let guard = BackendGuard(unsafe { addr_of_mut!((*ptr).1) });
         let s = Self::deserialize_eps(mem)?;
+        core::mem::forget(guard);
         // write the deserialized struct in the memcase
         unsafe {
             addr_of_mut!((*ptr).0).write(s);
@@ -159,7 +162,10 @@ pub trait Deserialize: DeserializeInner {
         }
         // deserialize the data structure
         let mem = unsafe { (*ptr).1.as_ref().unwrap() };
+        // the backend must be released if deserialization fails
+        let guard = BackendGuard(unsafe { addr_of_mut!((*ptr).1) });
         let s = Self::deserialize_eps(mem)?;
+        core::mem::forget(guard);
         // write the deserialized struct in the MemCase
         unsafe {
             addr_of_mut!((*ptr).0).write(s);
@@ -202,14 +208,32 @@ pub trait Deserialize: DeserializeInner {
         }
 
         let mmap = unsafe { (*ptr).1.as_ref().unwrap() };
+        // the backend must be released if deserialization fails
+        let guard = BackendGuard(unsafe { addr_of_mut!((*ptr).1) });
         // deserialize the data structure
         let s = Self::deserialize_eps(mmap)?;
+        core::mem::forget(guard);
         // write the deserialized struct in the MemCase
         unsafe {
             addr_of_mut!((*ptr).0).write(s);
         }
         // finish init
         Ok(unsafe { uninit.assume_init() })
+    }
+}
+
+/// Drops in place the [`MemBackend`] written in a partially initialized
+/// [`MemCase`] unless it is [forgotten](core::mem::forget): the loading methods
+/// of [`Deserialize`] use it to release the backend (heap memory or memory
+/// mapping) when ε-copy deserialization fails or panics, as the
+/// [`MaybeUninit`] containing the [`MemCase`] would otherwise leak it.
+struct BackendGuard(*mut MemBackend);
+
+impl Drop for BackendGuard {
+    fn drop(&mut self) {
+        // SAFETY: the pointer refers to an initialized MemBackend that
+        // nobody else will drop or use.
+        unsafe { core::ptr::drop_in_place(self.0) };
     }
 }
 
